@@ -96,6 +96,12 @@ def main(argv: list[str]) -> int:
     except core.HarnessError as err:
         print(f"HARNESS-ERROR property={prop}: {err}")
         return 2
+    except Exception as err:  # noqa: BLE001  a crash of the machinery is never a verdict
+        import traceback
+
+        traceback.print_exc()
+        print(f"HARNESS-ERROR property={prop}: the check crashed: {type(err).__name__}: {err}")
+        return 2
 
 
 if __name__ == "__main__":
